@@ -72,6 +72,20 @@ def run(report, db, tier):
     borrow(report, 'R11.1v', "the id echoed by the keep-alive / teleport arms survives the VarInt codec: what read returns, send accepts (C03's rules)",
            lambda rid, c: c.startswith(('read:', 'send:negative')),
            lambda sub: c03.run(sub, db, tier))
+    # the arms are chosen by packet *name*: a keep-alive, a position packet
+    # or a disconnect of the server reaches its arm only if the class is
+    # registered under the id the protocol gives it
+    from . import c07
+    PLAY = ('keep alive (clientbound)', 'keep alive (serverbound)',
+            'player position and look (clientbound)', 'teleport confirm',
+            'disconnect (play)', 'player position and look (serverbound)')
+    borrow(report, 'R11.2i', "the play-state packets this property is about "
+           "(keep-alive both ways, position and look, teleport confirm, "
+           "disconnect) carry the published ids in every README release "
+           "(C07's reference table)",
+           lambda rid, c: rid == 'R07.2' and c.startswith('id:') and
+           c.split(':')[1] in PLAY,
+           lambda sub: c07.run(sub, db, tier))
     # "under every supported protocol version": the layouts and ids of the
     # packets handled here are chosen by version guards; those follow the
     # order of publication only if no protocol number is ordered numerically
@@ -345,6 +359,35 @@ def unknown_ids(report, db, S, M, P, fi, arms):
                     a[2][0][1][0] == 'attr' and a[2][0][1][2] == 'get' and \
                     struct(a[2][0][1][1]) == table and a[2][0][2]:
                 known, ident, k_at = pol, a[2][0][2][0], i
+        miss = None
+        if known is None:
+            # EAFP: the table is indexed inside a try; the unknown id is the
+            # KeyError that lookup raises
+            for nt in p.notes:
+                if nt[0] == 'caught' and isinstance(
+                        nt[1], ast.ExceptHandler) and nt[1].type is not None \
+                        and ast.unparse(nt[1].type) in (
+                            'KeyError', 'LookupError') and isinstance(
+                                nt[3], ast.AST):
+                    subs = [x for x in ast.walk(nt[3]) if isinstance(
+                        x, ast.Subscript) and ast.unparse(x.value).endswith(
+                            '.clientbound_packets')]
+                    if subs:
+                        miss = nt
+            if miss is not None:
+                known = False
+                for t in path_terms(p):
+                    pass
+                ident = None
+                for e in p.flat(('call',)):
+                    if e.node is miss[3]:
+                        for t in subterms(e.fn):
+                            if t[0] == 'op' and t[1] == 'index' and \
+                                    struct(t[2][0]) == table:
+                                ident = t[2][1]
+            elif any(t[0] == 'op' and t[1] == 'index' and
+                     struct(t[2][0]) == table for t in path_terms(p)):
+                known = True
         if known is None:
             continue
         if known:
@@ -353,7 +396,11 @@ def unknown_ids(report, db, S, M, P, fi, arms):
         n_unknown += 1
         v = p.value
         later = []
-        for e in p.events:
+        if miss is not None:
+            evs_ = p.flat(('call',))
+            at_ = [i for i, e in enumerate(evs_) if e.node is miss[3]]
+            later = evs_[at_[-1] + 1:] if at_ else []
+        for e in ([] if miss is not None else p.events):
             if e.nconds > k_at:
                 later.append(e)
                 if e.kind == 'loop':
